@@ -87,13 +87,18 @@ type Sched struct {
 	log     []SchedEvent
 	wake    chan struct{}
 	open    bool
+	created map[FKey]int // log sequence number of the Save that created a file (through a view)
 
 	RoleMarks []RoleMark
+	// ListNewestFirst: List callbacks of views are delivered in creation order (oldest first) or,
+	// when set, newest first — never in name order, because names are hashes of randomly
+	// nonced ciphertexts and would make schedules irreproducible.
+	ListNewestFirst bool
 }
 
 // NewSched creates a scheduler (call inside the synctest bubble).
 func NewSched(marks ...RoleMark) *Sched {
-	return &Sched{wake: make(chan struct{}, 1), RoleMarks: marks}
+	return &Sched{wake: make(chan struct{}, 1), RoleMarks: marks, created: map[FKey]int{}}
 }
 
 func (s *Sched) signal() {
@@ -142,6 +147,8 @@ func (s *Sched) logOp(proc int, role string, kind OpKind, h backend.Handle, err 
 	e := SchedEvent{Seq: s.nlog, At: time.Now(), Proc: proc, Role: role, Kind: kind, What: string(kind), H: h, Gated: gated}
 	if err != nil {
 		e.Err = err.Error()
+	} else if kind == OpSave && gated {
+		s.created[keyOf(h)] = s.nlog
 	}
 	s.log = append(s.log, e)
 	s.mu.Unlock()
@@ -351,7 +358,37 @@ func (v *SchedView) List(ctx context.Context, t backend.FileType, fn func(backen
 	}
 	// the listing is taken atomically when the operation is released; the callbacks run later
 	// (restic's ParallelList hands the entries to workers that come back to the scheduler)
-	err = v.VBackend.list(ctx, t, fn, v.ID)
+	var fis []backend.FileInfo
+	err = v.VBackend.list(ctx, t, func(fi backend.FileInfo) error { fis = append(fis, fi); return nil }, v.ID)
 	v.S.logOp(v.ID, role, OpList, h, err, true)
-	return err
+	if err != nil {
+		return err
+	}
+	s := v.S
+	s.mu.Lock()
+	ord := make([]int, len(fis))
+	for i, fi := range fis {
+		ord[i] = s.created[FKey{Type: t, Name: fi.Name}]
+	}
+	newest := s.ListNewestFirst
+	s.mu.Unlock()
+	idx := make([]int, len(fis))
+	for i := range idx {
+		idx[i] = i
+	}
+	sort.SliceStable(idx, func(a, b int) bool {
+		if newest {
+			return ord[idx[a]] > ord[idx[b]]
+		}
+		return ord[idx[a]] < ord[idx[b]]
+	})
+	for _, i := range idx {
+		if err := ctx.Err(); err != nil {
+			return err
+		}
+		if err := fn(fis[i]); err != nil {
+			return err
+		}
+	}
+	return ctx.Err()
 }
